@@ -147,6 +147,16 @@ class Workspace:
         ss = pd.read_feather(os.path.join(out, "semantic_p1", "stmt_id_to_scope_id"))
         self.stmt_scope = {int(a): int(b) for a, b in zip(ss["stmt_id"], ss["scope_id"])}
         s2 = _read_bundles(out, "semantic_p1/s2space_p1")
+        self.stmt_method = {}    # stmt -> method whose def-use pass analysed it
+        self.method_order = {}   # unit -> method ids in the order their results were saved (= analysed)
+        for mid_, st_ in zip(s2["method_id"], s2["stmt_id"]):
+            st = self.row_by_id.get(int(st_))
+            if st is None:
+                continue
+            self.stmt_method.setdefault(int(st_), int(mid_))
+            order = self.method_order.setdefault(st["unit"], [])
+            if int(mid_) not in order:
+                order.append(int(mid_))
         s2 = s2[s2["symbol_or_state"] == 0]
         self.symbols = {}        # unit -> [(stmt, name, symbol_id, source_unit)]
         for r in s2[["stmt_id", "name", "symbol_id", "source_unit_id"]].to_dict("records"):
@@ -1424,7 +1434,13 @@ def eval_case(wsp, case, idx, ops, stats):
         else:
             oracle = JsOracle(json.loads(json.dumps(case["trees"][rel])))
         seen = set()
-        for stmt, name, mode, sid, su in unit_queries(wsp, unit, ops):
+        imp_tags = case.get("imports", {}).get(rel, {})
+        sim = ImportEdgeSim(wsp, unit, imp_tags, ops) if imp_tags and case["lang"] == "python" else None
+        order = wsp.method_order.get(unit, [])
+        queries = sorted(unit_queries(wsp, unit, ops),
+                         key=lambda q: (order.index(wsp.stmt_method[q[0]]) if wsp.stmt_method.get(q[0]) in order else len(order), q[0]))
+        for stmt, name, mode, sid, su in queries:
+            pred, predicted_i2 = None, False
             if mode == "decl":
                 continue
             row = wsp.row_by_id[stmt]
@@ -1445,6 +1461,11 @@ def eval_case(wsp, case, idx, ops, stats):
             if via_import:
                 ok, real = judge_import(wsp, case, idx, unit, sid, su, imp[name])
                 stats["import_occurrences"] += 1
+                pred = sim.predicted_resolved(wsp, stmt, name, imp[name]) if sim is not None else None
+                if pred is not None:
+                    stats["import_edge_predictions"] = stats.get("import_edge_predictions", 0) + 1
+                    if not ok and pred is False and (real is None or real.get("kind") == "import"):
+                        predicted_i2 = True
                 if exp is None:
                     exp = {"owner": ["module", 0], "decls": [], "import": imp[name]}
             else:
@@ -1454,7 +1475,11 @@ def eval_case(wsp, case, idx, ops, stats):
             stats["occurrences"] += 1
             stats["resolved" if exp is not None else "unresolved"] += 1
             if not ok:
-                if via_import:
+                if via_import and pred is not None:
+                    # the finding is claimed only where the model of the unchanged code predicts it
+                    fid = "C05/py-same-target-imported-under-two-names" if predicted_i2 else \
+                        classify(wsp, unit, case["lang"], oracle, stmt, line, name, exp, real)
+                elif via_import:
                     fid = classify_import(imp[name], real, imp, name, case, rel) or \
                         classify(wsp, unit, case["lang"], oracle, stmt, line, name, exp, real)
                 else:
@@ -1515,6 +1540,89 @@ def proj_on_cycle(proj, rel):
             seen.add(x)
             todo += list(edges.get(x, ()))
     return False
+
+
+class ImportEdgeSim:
+    """Finding I2 (one import-graph edge per (unit, target): the import analysed LAST decides under
+    which local name the target can be reached) as a MODEL-PREDICTED matcher.  The unchanged code
+    analyses the import statements of a unit in this order: all scope-0 imports (ascending id), all
+    other imports (ascending id) — the import phase — and then, during the def-use pass, every import
+    statement inside a method again when the pass reaches it (methods in analysis order, statements
+    ascending).  A use of local name L (denoting target T) is redirected iff the edge of T currently
+    carries L.  Only names whose target is imported under >= 2 local names in the unit are predicted."""
+
+    def __init__(self, wsp, unit, tags, ops):
+        self.ok = True
+        imports = set(ops["import"])
+        rows = [r for r in wsp.units[unit] if r["op"] in imports]
+        scope = {s: sc for s, sc, _, _ in wsp.scope_rows.get(unit, [])}
+
+        def targets_of(row):
+            """[(target key, local name)] of one import row"""
+            if row["name"] == "*":
+                src = (row.get("source") or "")
+                return [((tuple(t[:2]) if not isinstance(t[0], list) else None), l) for l, t in tags.items()
+                        if not isinstance(t[0], list) and t[2] == "star"]
+            l = decl_name(row)
+            t = tags.get(l)
+            if t is None:
+                return []
+            if isinstance(t[0], list):
+                # conditional re-import: pick the branch by the module named in the statement
+                src = (row.get("source") or "").strip(".").split(".")[-1]
+                cand = [x for x in t if x[0].rsplit("/", 1)[-1][:-3] == src]
+                t = cand[0] if len(cand) == 1 else None
+                if t is None:
+                    self.ok = False
+                    return []
+            return [(tuple(t[:2]), l)]
+
+        self.row_targets = {r["id"]: targets_of(r) for r in rows}
+        names_of = {}
+        for lst in self.row_targets.values():
+            for t, l in lst:
+                names_of.setdefault(t, set()).add(l)
+        self.shared = {t for t, ls in names_of.items() if len(ls) >= 2}
+        self.state = {}
+        for r in sorted((r for r in rows if scope.get(r["id"]) == 0), key=lambda r: r["id"]):
+            self._apply(r["id"])
+        for r in sorted((r for r in rows if scope.get(r["id"]) != 0), key=lambda r: r["id"]):
+            self._apply(r["id"])
+        # def-use pass: events in (method order, statement id) order
+        self.import_rows_by_method = {}
+        for r in rows:
+            m = wsp.stmt_method.get(r["id"])
+            if m is not None:
+                self.import_rows_by_method.setdefault(m, []).append(r["id"])
+        self.order = wsp.method_order.get(unit, [])
+        self.cursor = None       # (index of method, stmt) up to which the def-use events were replayed
+
+    def _apply(self, rid):
+        for t, l in self.row_targets.get(rid, []):
+            self.state[t] = l
+
+    def predicted_resolved(self, wsp, stmt, name, tag):
+        """None = no prediction (name not shared / cannot tell); True / False otherwise.
+        Must be called with uses in (method order, statement id) order."""
+        tg = [tuple(x[:2]) for x in tag] if isinstance(tag[0], list) else [tuple(tag[:2])]
+        if not self.ok or not any(t in self.shared for t in tg):
+            return None
+        if not isinstance(tag[0], list) and tag[2] in ("star", "chain"):
+            return None       # never looked up on the edge (finding I1) / depends on another unit's edges
+        m = wsp.stmt_method.get(stmt)
+        if m is None or m not in self.order:
+            return None
+        pos = (self.order.index(m), stmt)
+        if self.cursor is not None and pos < self.cursor:
+            return None
+        # replay the import re-analyses between the cursor and this use
+        events = sorted((self.order.index(mm), rid) for mm, rids in self.import_rows_by_method.items()
+                        if mm in self.order for rid in rids)
+        for ev in events:
+            if (self.cursor is None or ev > self.cursor) and ev < pos:
+                self._apply(ev[1])
+        self.cursor = pos
+        return any(self.state.get(t) == name for t in tg)
 
 
 def classify_import(target, real, tags=None, name=None, case=None, rel=None):
@@ -2048,6 +2156,35 @@ def gen_pos_project(rng, cid, n_scen=9):
             # a use from a scope where a function-level import is not visible
             if not ml:
                 body.append(use(names))
+        # the same target under TWO local names (finding I2, model-predicted): which of the two names
+        # is redirected at a given use depends on the import analysed last before it — the import phase
+        # first, then every function-level import again when the def-use pass reaches it
+        for shape in rng.sample(["top_fn", "fn_fn", "abs_fn_fn", "fn_top"], 2):
+            t = take_decl(inside_pkg=True)
+            if t is None:
+                break
+            la, lb = fresh("l"), fresh("l")
+            rel_spec, abs_spec = f".{mod_name(t[0])}", f"{root}.{mod_name(t[0])}"
+
+            def mk(spec, local, kind, alias=True):
+                text = f"from {spec} import {t[1]} as {local}" if alias else f"from {spec} import {t[1]}"
+                return {"k": "imp", "text": text, "locals": {local if alias else t[1]: [t[0], t[1], kind]}, "via": t[0], "pos": "dup_" + shape}
+            hA, hB, hC = fresh("h"), fresh("h"), fresh("h")
+            if shape == "top_fn":
+                body += [mk(rel_spec, la, "dup"),
+                         {"k": "def", "name": hA, "params": [], "body": [mk(rel_spec, lb, "dup"), use([lb]), use([la])]},
+                         {"k": "def", "name": hB, "params": [], "body": [use([la])]}, use([la])]
+            elif shape == "fn_fn":
+                body += [{"k": "def", "name": hA, "params": [], "body": [mk(rel_spec, la, "dup"), use([la])]},
+                         {"k": "def", "name": hB, "params": [], "body": [mk(rel_spec, lb, "dup"), use([lb]), {"k": "assign", "t": fresh("q"), "e": {"k": "name", "n": lb}}]},
+                         {"k": "def", "name": hC, "params": [], "body": [mk(rel_spec, la, "dup"), use([la])]}]
+            elif shape == "abs_fn_fn":
+                body += [{"k": "def", "name": hA, "params": ["v"], "body": [mk(abs_spec, None, "dup", alias=False), {"k": "ret", "e": {"k": "call", "f": t[1], "args": ["v"]}}]},
+                         {"k": "def", "name": hB, "params": ["v"], "body": [mk(abs_spec, lb, "dup"), {"k": "assign", "t": fresh("q"), "e": {"k": "call", "f": lb, "args": ["v"]}}, use([lb])]}]
+            else:
+                body += [{"k": "def", "name": hA, "params": [], "body": [mk(rel_spec, la, "dup"), use([la])]},
+                         {"k": "if", "c": "cnd", "body": [mk(rel_spec, lb, "dup"), use([lb])], "else": []},
+                         {"k": "def", "name": hB, "params": [], "body": [use([lb])]}]
         files[f"{root}/main{mi}.py"] = {"decls": [], "imports": [], "uses": [], "body": body}
     proj = {"root": root, "top": top, "files": files}
     return make_proj_case(cid, proj)
@@ -2315,7 +2452,7 @@ class Batch:
         self.scratch, self.tag, self.cases, self.ops, self.kinds = scratch, tag, cases, ops, kinds
         self.root_name = "cases_" + tag
         self.stats = {k: 0 for k in ("occurrences", "resolved", "unresolved", "untagged", "unobserved",
-                                     "missing_units", "import_occurrences", "units", "units_id_order",
+                                     "missing_units", "import_occurrences", "import_edge_predictions", "units", "units_id_order",
                                      "units_avail_ok", "units_lex_eq_bind", "queries", "rows")}
         self.diffs = []
         self.mism = []
